@@ -916,7 +916,7 @@ def drive(ctx, prop, weights, n_hist, max_ops, modes=('A', 'B')):
 def run(ctx):
     env(True)
     env(False)
-    n = ctx.budget(2500, 40000)
+    n = ctx.budget(2500, 25000)
     drive(ctx, 'C05', W_C05, n, 30 if ctx.tier == 'quick' and not ctx.deep else 60)
 
 
